@@ -36,6 +36,7 @@ type pipeCase struct {
 	ScratchDir string
 	Repo       string // working tree of the repository (the template files are read from it)
 	Templates  bool   // also record what the output templates see of the values they are executed on
+	KeepPre    bool   // after solving, dump the preprocessed structure again (solving must leave it as it was)
 	Repre      bool   // preprocess the definition once more (other own-weight setting) and dump the first result again
 	Reassemble bool   // after everything else: add a nodal load to a slice node through the exported API and assemble again
 	concurrent bool   // set by the concurrent command: leave process-wide settings alone
@@ -119,6 +120,7 @@ type jPipeOut struct {
 	Nodes      []jNode
 	Bars       []jBar
 	Pre        []jPre // one per StructureModel call
+	PreSolved  *jPre   // the preprocessed structure as it is after process.Solve returned
 	PreAfter   *jPre   // the first preprocessed structure, looked at again after the definition was preprocessed once more
 	Again      *jAgain // the system assembled a second time, after a nodal load was added to a slice node
 	Restaged   *jPre  // the structure without one bar, numbered again over the same sliced bars
@@ -365,6 +367,11 @@ func runPipe(c pipeCase) (out jPipeOut) {
 		if !c.concurrent {
 			os.Unsetenv("VERIF_DUMP_SOLUTION")
 			out.U = readU(dumpPath)
+		}
+		if c.KeepPre {
+			var jp jPre
+			guard(&jp.Panic, func() { jp = dumpPre(pre) })
+			out.PreSolved = &jp
 		}
 		if out.SolvePanic == "" && sol != nil {
 			guard(&out.SolvePanic, func() {
